@@ -39,14 +39,14 @@ type Pred struct {
 }
 
 type FaultSpec struct {
-	Proc   string `json:"proc,omitempty"` // process id; empty = any process of the step
-	K      int    `json:"k,omitempty"`    // hit the k-th seam call served for that process (1-based); 0 = use Pred
-	Pred   *Pred  `json:"pred,omitempty"`
-	Kind   string `json:"kind"`
-	Code   int    `json:"code,omitempty"`   // HTTP status for reject
-	Sticky bool   `json:"sticky,omitempty"` // the same verb+path keeps failing for the rest of the process
-	Repeat bool   `json:"repeat,omitempty"` // may fire more than once (with Pred)
-	Oob    *OobSpec `json:"oob,omitempty"`  // for kind "oob"
+	Proc   string   `json:"proc,omitempty"` // process id; empty = any process of the step
+	K      int      `json:"k,omitempty"`    // hit the k-th seam call served for that process (1-based); 0 = use Pred
+	Pred   *Pred    `json:"pred,omitempty"`
+	Kind   string   `json:"kind"`
+	Code   int      `json:"code,omitempty"`   // HTTP status for reject
+	Sticky bool     `json:"sticky,omitempty"` // the same verb+path keeps failing for the rest of the process
+	Repeat bool     `json:"repeat,omitempty"` // may fire more than once (with Pred)
+	Oob    *OobSpec `json:"oob,omitempty"`    // for kind "oob"
 
 	fired bool
 	seen  int
@@ -132,7 +132,7 @@ type HookSpec struct {
 // ResSlot describes one YAML document emitted by a template.
 type ResSlot struct {
 	Kind    string            `json:"kind"`
-	Group   string            `json:"group,omitempty"` // API group override (a kind served by more than one group)
+	Group   string            `json:"group,omitempty"`  // API group override (a kind served by more than one group)
 	APIVer  string            `json:"apiVer,omitempty"` // version override within the kind's group (a kind served at two versions)
 	Name    string            `json:"name"`
 	NS      string            `json:"ns,omitempty"`   // explicit metadata.namespace
@@ -160,6 +160,8 @@ type SubchartSpec struct {
 	Schema    string                 `json:"schema,omitempty"`
 	Notes     string                 `json:"notes,omitempty"`
 	Sub       []SubchartSpec         `json:"sub,omitempty"` // nested dependencies
+	// Undeclared: the subchart sits in charts/ without an entry under dependencies in Chart.yaml (still rendered by Helm)
+	Undeclared bool `json:"undeclared,omitempty"`
 }
 
 type ChartSpec struct {
@@ -260,7 +262,7 @@ type Plan struct {
 	PCT       []int       `json:"pct,omitempty"`
 	PCTPrio   []int       `json:"pctPrio,omitempty"`
 	CoRelease string      `json:"coRelease,omitempty"` // "" | "sched" | "inner" (race-detector runs)
-	Expect    string      `json:"expect,omitempty"` // violation signature this replay file reproduces
+	Expect    string      `json:"expect,omitempty"`    // violation signature this replay file reproduces
 	ShareCfg  bool        `json:"shareCfg,omitempty"`
 	Render    *RenderSpec `json:"render,omitempty"` // C05
 	Net       *NetSpec    `json:"net,omitempty"`    // C19/C17/C20b
